@@ -175,6 +175,9 @@ class Codec:
                 next_msg = len(msg)
 
         encoded_msg = rawmsg[valid_idx : next_msg + valid_idx]
+        # a frame that is refused takes only its own bytes with it, never the
+        #   frames that follow it in the same buffer
+        frame_end = valid_idx + next_msg
 
         msg = msg[:next_msg].split(self.SOH)
         if not msg[-1]:
@@ -195,23 +198,23 @@ class Codec:
                 % (value, self.protocol.beginstring)
             )
             assert silent, "protocol beginstring mismatch"
-            return (None, len(rawmsg), None)
+            return (None, frame_end, None)
 
         toks = msg[1].split("=", 1)
         if len(toks) != 2:
             assert silent, f"BodyLength split error {msg}"
-            return (None, len(rawmsg), None)
+            return (None, frame_end, None)
         tag, value = toks
 
         msg_length = len(msg[0]) + len(msg[1]) + len("10=000") + 3
         if tag != FTag.BodyLength:
             logging.error(f"*** BodyLength missing or not 2nd field *** [{tag}]: {msg}")
             assert silent, "2nd tag must be BodyLength"
-            return (None, len(rawmsg), None)
+            return (None, frame_end, None)
         elif not (value.isascii() and value.isdigit()):
             logging.error(f"*** BodyLength is not a number *** [{value}]: {msg}")
             assert silent, "BodyLength must be a number"
-            return (None, len(rawmsg), None)
+            return (None, frame_end, None)
         else:
             msg_length += int(value)
 
@@ -232,7 +235,7 @@ class Codec:
             toks = m.split("=", 1)
             if len(toks) != 2:
                 assert silent, f"incomplete tag {m}"
-                return (None, len(rawmsg), None)
+                return (None, frame_end, None)
             tag, value = toks
 
             try:
